@@ -168,6 +168,10 @@ func (e *SpecEnv) fieldOf(x SV, name string) SV {
 		cs := curT.Underlying().(*types.Struct)
 		f := cs.Field(idx)
 		if k == len(index)-1 {
+			if _, isStruct := f.Type().Underlying().(*types.Struct); isStruct {
+				// embedded struct: its address, typed as a pointer
+				return SV{IntV(addOff(cur, e.g.P.fieldOffset(cs, idx))), types.NewPointer(f.Type())}
+			}
 			v := sh.loadField(curT, cs, idx, cur)
 			return SV{v, f.Type()}
 		}
@@ -361,7 +365,7 @@ func (e *SpecEnv) tr(x *Expr) SV {
 				return SV{IntV(t), u.Elem()}
 			}
 			sh := e.shadow()
-			v, _ := sh.mapGet(u, b.V.T, i.V.T)
+			v, _ := sh.mapGet2(u, b.V.T, i.V.T, false)
 			return SV{v, u.Elem()}
 		}
 		specFail("cannot index value of type %s", b.T)
